@@ -104,8 +104,10 @@ def attr_value(rng, name):
         return rng.choice(["0", "1", "2", "3", "4", "10", "-1", "None", "+2", "007", "x", "True", "Auto"])
     if name == "type":
         return rng.choice(TYPES)
-    if name in ("call", "sequential_format"):
+    if name == "call":
         return "None"
+    if name == "sequential_format":
+        return rng.choice(["None", "abc", "%d", "x%dy", "%s%s", "Auto", "%", "%(a)s", "'%03d'"])
     t = help_text(rng) if rng.random() < 0.6 else rng.choice(["abc", "None", "Auto", "x y", "a_b", "1"])
     r = rng.random()
     if r < 0.5:
